@@ -341,6 +341,12 @@ class SymListDict(_SymDictBase):
             if E.branch(self.key(a, b)):
                 return ListView(self, a, b)
             return ListView(self, a, b, detached=True)      # the (empty) default: not stored in the dictionary
+        if name == "setdefault" and len(args) == 2 and isinstance(args[1], list) and not args[1]:
+            # d.setdefault(key, []): the list stored under the key, an empty one being stored first when the key is absent
+            a, b = self._pair(args[0])
+            if not E.branch(self.key(a, b)):
+                self.setitem(E, args[0], args[1], node)
+            return ListView(self, a, b)
         raise Unsupported("method %s%r of a symbolic dictionary of lists" % (name, tuple(args)))
 
     def iterspec(self, E):
